@@ -234,6 +234,20 @@ Fixpoint v_set (v : vocab) (k : str) (id : tok) : vocab :=
   end.
 Definition v_len (v : vocab) : N := N.of_nat (length v).
 
+(* compact notations for the harness's case terms (Coq parses flat numeral lists several
+   times faster than lists of tuples): the entries  c :: sfx |-> id  for parallel lists of
+   first chars and ids, and a list of optional id lists written as [n+1; x1..xn] / [0] groups *)
+Definition keyed_vocab (sfx : str) (cs ids : list N) : vocab :=
+  combine (map (fun c => c :: sfx) cs) ids.
+Fixpoint unflat_aux (fuel : nat) (l : list N) : list (option (list N)) :=
+  match fuel, l with
+  | S f, n :: r =>
+      if n =? 0 then None :: unflat_aux f r
+      else Some (firstn (N.to_nat (n - 1)) r) :: unflat_aux f (skipn (N.to_nat (n - 1)) r)
+  | _, _ => []
+  end.
+Definition unflat (l : list N) : list (option (list N)) := unflat_aux (length l) l.
+
 Definition wrap32 (x : N) : N := x mod 4294967296.
 
 Record opts := {
